@@ -28,6 +28,12 @@ PROPS = {
                     "@setDataFrame/ping/control/unknown/malformed, random partitions) interleaved with application calls (accept/reject valid, stale, unknown ids; "
                     "send media/metadata; ping; finish), half of them clean canonical workflows, clock readings incl. 2^24 and 2^32 crossings; non-trivial = at least three operations",
             "explanation": "trace oracles on the real events: request ids fresh, publish/play requests only after an accepted connection, accept/reject exactly once, finished events <= accepted requests per key, media only for an accepted publish key"},
+    "C10": {"components": ["client"],
+            "rule": "client: operation scripts = application calls (request_connection/playback/publishing, stop_*, publish_*, ping) interleaved with server chunk streams "
+                    "from an independent Python emulator (_result/_error with current, stale, fractional, NaN or unknown transaction ids, with/without stream id; onStatus with "
+                    "known/unknown/malformed codes; media and onMetaData on the active or another stream; ping; acknowledgement; control), half clean canonical workflows; "
+                    "non-trivial = at least three operations",
+            "explanation": "trace oracles on the real results: connect emits only when disconnected, media events only between a play request and stop, publish_* emit only while publishing"},
     "C13": {"components": ["msg"],
             "rule": "msg: every message variant with boundary u32 field values, random AMF0 argument lists (incl. inexpressible ones), all 9 user-control events; "
                     "all 256 type ids with boundary, well-formed and random bodies, AMF0 bodies (incl. ECMA arrays, truncations) under ids 18/20/15/17; "
